@@ -15,7 +15,7 @@ Grammar accepted for the tree (anything else raises TranslateError):
          | ARR[:] = INT | _lincomb_impl(SC, OP, SC, OP, OP)
          | if COND: stmt+ [elif COND: stmt+]* [else: stmt+]
   COND  := OP is OP | OP is not OP | SC == SC | SC != SC | COND and COND | COND or COND | not COND
-  SC    := a | b | SC + SC | INT          OP := x1 | x2 | out       ARR := x1_arr | x2_arr | out_arr
+  SC    := a | b | SC + SC | -SC | INT          OP := x1 | x2 | out       ARR := x1_arr | x2_arr | out_arr
 Grammar for the fallback bodies:
   pstmt := P op= (P | scalar) | P[...] = P[...] | if scalar (!=|==) INT: pstmt+ ; final `return P`
 """
@@ -75,6 +75,8 @@ def sc(node):
         return 'SA' if node.id == 'a' else 'SB'
     if isinstance(node, ast.BinOp) and isinstance(node.op, ast.Add):
         return '(SAdd %s %s)' % (sc(node.left), sc(node.right))
+    if isinstance(node, ast.UnaryOp) and isinstance(node.op, ast.USub) and not isinstance(node.operand, ast.Constant):
+        return '(SNeg %s)' % sc(node.operand)
     if isinstance(node, (ast.Constant, ast.UnaryOp)):
         return '(SK %s)' % zlit(const_int(node))
     fail(node, 'scalar expression outside grammar')
